@@ -16,7 +16,9 @@ Import ListNotations.
 
 (* one oracle entry: digest, normalised V (27/28), R, S -> address of the recovered key, or None when
    the library refuses the signature.  Filled by the harness by calling decred/btcec directly. *)
-Definition oentry := (bdsl * N * N * N * option bdsl)%type.
+(* R and S are written as big-endian byte strings (large decimal literals are slow to parse) *)
+Definition oentry := (bdsl * N * bdsl * bdsl * option bdsl)%type.
+Definition lit_N (d : bdsl) : N := of_be (bexpand d).
 
 Definition EOracleMiss := 999%nat.
 Definition ESecp := 1%nat.
@@ -33,7 +35,7 @@ Fixpoint orc_lookup (orc : list oentry) (d : bytes) (v r s : N) : option (option
   match orc with
   | [] => None
   | (d', v', r', s', a) :: t =>
-      if (v =? v')%N && (r =? r')%N && (s =? s')%N && bytes_eqb d (bexpand d')
+      if (v =? v')%N && (r =? lit_N r')%N && (s =? lit_N s')%N && bytes_eqb d (bexpand d')
       then Some (match a with Some x => Some (bexpand x) | None => None end)
       else orc_lookup t d v r s
   end.
@@ -53,8 +55,8 @@ Definition RecoverDirect_run (orc : list oentry) (sg : sigdata) (digest : bytes)
 
 (* the Transaction the implementation returned: nil pointers are None *)
 Record otx := mkOtx {
-  o_nonce : option N; o_gasPrice : option N; o_maxPrio : option N; o_maxFee : option N;
-  o_gasLimit : option N; o_to : option bdsl; o_value : option N; o_data : bdsl
+  o_nonce : option bdsl; o_gasPrice : option bdsl; o_maxPrio : option bdsl; o_maxFee : option bdsl;
+  o_gasLimit : option bdsl; o_to : option bdsl; o_value : option bdsl; o_data : bdsl
 }.
 
 Inductive case :=
@@ -79,10 +81,10 @@ Definition run_entry_H (Hf : bytes -> bytes) (orc : list oentry) (entry : nat) (
   end.
 Definition run_entry := run_entry_H keccak256.
 
-Definition optN_eqb (a : option N) (b : option Z) : bool :=
+Definition optN_eqb (a : option bdsl) (b : option Z) : bool :=
   match a, b with
   | None, None => true
-  | Some x, Some y => (Z.of_N x =? y)%Z
+  | Some x, Some y => (Z.of_N (lit_N x) =? y)%Z
   | _, _ => false
   end.
 Definition optB_eqb (a : option bdsl) (b : option bytes) : bool :=
@@ -98,7 +100,7 @@ Definition tx_matches (o : otx) (t : tx) : bool :=
   optN_eqb (o_value o) (tx_value t) &&
   bytes_eqb (bexpand (o_data o)) (BytesNotNil (tx_data t)).
 
-Definition dflt (a : option N) : N := match a with Some n => n | None => 0%N end.
+Definition dflt (a : option bdsl) : N := match a with Some n => lit_N n | None => 0%N end.
 Definition fields_of (o : otx) : fields :=
   mkFields (dflt (o_nonce o)) (dflt (o_gasPrice o)) (dflt (o_maxPrio o)) (dflt (o_maxFee o))
            (dflt (o_gasLimit o))
@@ -117,7 +119,7 @@ Definition elem_int (l : list item) (i : nat) : option N :=
 (* does the table hold a signature check of (r,s) over [digest] that yields [addr]? *)
 Definition orc_confirms (orc : list oentry) (digest : bytes) (r s : N) (addr : bytes) : bool :=
   existsb (fun e => let '(d, _, r', s', a) := e in
-             (r =? r')%N && (s =? s')%N && bytes_eqb digest (bexpand d) &&
+             (r =? lit_N r')%N && (s =? lit_N s')%N && bytes_eqb digest (bexpand d) &&
              match a with Some x => bytes_eqb (bexpand x) addr | None => false end) orc.
 
 (* result codes: 0 agree; 1..9 model <> implementation; >= 10 implementation fails a property oracle *)
@@ -165,9 +167,11 @@ Definition check_case (c : case) : N :=
           if bytes_eqb (x02 :: encode (Lst (firstn 9 l))) (spec_preimage Eip1559 f chainN) then 0%N else 11%N
         else
           (* the returned payload is the specification preimage of the returned fields *)
+          (* EIP-155 chain ids are non-negative: for a negative chain id there is no specification
+             preimage to compare the EIP-155 form with (totality and the signature oracle still apply) *)
           let pre_ok := if typed then bytes_eqb pl (spec_preimage Eip1559 f chainN)
                         else bytes_eqb pl (spec_preimage Original f chainN) ||
-                             bytes_eqb pl (spec_preimage Eip155 f chainN) in
+                             bytes_eqb pl (spec_preimage Eip155 f chainN) || (chain <? 0)%Z in
           if negb pre_ok then 11%N
           else
             (* the (r,s) of the input verify over keccak256(returned payload) for the returned address *)
